@@ -689,3 +689,78 @@ Theorem bipartition_objects_history_nonvacuous :
   NoDup (ids (o_tree st)) /\ read_enc (o_bs st) = map (fun p => Some (snd p)) (enc_full (Some false) (spec_su t)).
 Proof. exact obj_history_fresh_sat. Qed.
 Print Assumptions bipartition_objects_history_nonvacuous.
+
+(* ===== wave 8: exception safety ("each operation either raises a documented error and leaves the tree well
+   formed or completes") on the error paths that `covered` excludes: the REFUSED argument classes =====
+   Model/Heap.v: an error outcome HErr e h carries the heap at the moment of the raise.  refusal h o = Some e:
+   o's argument is in a class the API refuses at entry - remove_child(node) with node not in the receiver's
+   child list (a child of another node, the receiver itself, its parent, the seed, a node of another tree);
+   add_child of the node itself / of the receiver's parent; Edge.collapse of a terminal edge;
+   to_outgroup_position / prune_subtree of a node without parent; reroot_at_edge of the seed's edge;
+   prune_nodes of a list whose first node has no parent. *)
+From DV Require Import Proofs.C03ErrFrame.
+
+(* a refused operation changes nothing: the documented exception, and the heap (every cell: parent pointers,
+   child lists, lengths, taxa; seed, rooting flag, next id) is the one it was called on - for every variant of
+   the repaired sites.  No well-formedness hypothesis: also on garbage and detached subtrees. *)
+Theorem refused_op_frame : forall (v : variants) (h : heap) (o : op) (e : err),
+  refusal h o = Some e -> run_op_v v o h = HErr e h.
+Proof. exact refused_op_frame_l. Qed.
+Print Assumptions refused_op_frame.
+
+(* hence a refused operation preserves well-formedness (the clause of the property) *)
+Theorem refused_op_wf : forall (v : variants) (h : heap) (o : op) (e : err),
+  WF h -> refusal h o = Some e -> exists h', run_op_v v o h = HErr e h' /\ WF h'.
+Proof. exact refused_op_wf_l. Qed.
+Print Assumptions refused_op_wf.
+
+(* and the history goes on from the heap it had *)
+Theorem refused_history_frame : forall (v : variants) (o : op) (r : list op) (h : heap) (e : err),
+  refusal h o = Some e -> run_hist_v v (o :: r) h = run_hist_v v r h.
+Proof. exact refused_history_frame_l. Qed.
+Print Assumptions refused_history_frame.
+
+(* op_error_frame, Node/Edge level: EVERY error outcome of add_child, remove_child(suppress_unifurcations=False)
+   and Edge.collapse leaves the heap unchanged (all their raises precede their writes) *)
+Theorem op_error_frame_node_ops : forall (h : heap) (o : op) (e : err) (h' : heap),
+  entry_only o = true -> run_op o h = HErr e h' -> h' = h.
+Proof. exact node_op_error_frame_l. Qed.
+Print Assumptions op_error_frame_node_ops.
+
+(* op_error_frame for remove_child in both modes: an error outcome is the entry refusal (heap unchanged), or -
+   suppress_unifurcations=True only - it arises after the child WAS removed (h2), from list.index / the inner
+   remove_child of the suppression on a receiver that is not listed under its own parent (ill-formed input),
+   and the state left is exactly h2, h2 with the only child already re-inserted under the grandparent, or h2
+   with the length already added (su_partial).
+   _partial: the same statement for the Tree-level operations (loops: prune family, re-rooting, set_child_nodes,
+   Edge.invert) is not proved as a separate theorem; for covered operations op_wf_documented_errors gives
+   "unchanged, or the seed alone" and op_wf "well formed". *)
+Theorem op_error_frame_remove_child : forall (h : heap) (p c : Z) (su : bool) (e : err) (h' : heap),
+  run_op (ORemoveChild p c su) h = HErr e h' ->
+  (h' = h /\ e = ValueErr /\ memz c (kids h p) = false)
+  \/ (su = true /\ e = ValueErr /\ exists h2, remove_child_plain p c h = HOk h2 /\ su_partial p h2 h').
+Proof. exact remove_child_error_frame_l. Qed.
+Print Assumptions op_error_frame_remove_child.
+
+(* every refused class on a concrete tree (the hypotheses are satisfiable), and two arguments that are not refused *)
+Theorem refusal_examples :
+  refusal ef_heap (ORemoveChild 1 5 false) = Some ValueErr /\ refusal ef_heap (ORemoveChild 1 4 true) = Some ValueErr /\
+  refusal ef_heap (ORemoveChild 4 4 false) = Some ValueErr /\ refusal ef_heap (ORemoveChild 4 0 true) = Some ValueErr /\
+  refusal ef_heap (ORemoveChild 1 77 false) = Some ValueErr /\
+  refusal ef_heap (OAddChild 4 4) = Some AssertErr /\ refusal ef_heap (OAddChild 4 0) = Some AssertErr /\
+  refusal ef_heap (OEdgeCollapse 5 true) = Some ValueErr /\ refusal ef_heap (OToOutgroup 0 true true) = Some AssertErr /\
+  refusal ef_heap (OPruneSubtree 0 true true) = Some TypeErr /\ refusal ef_heap (ORerootAtEdge 0 None None false true) = Some AttrErr /\
+  refusal ef_heap (OPruneNodes [0; 5] false true true) = Some OtherErr /\
+  refusal ef_heap (ORemoveChild 1 2 true) = None /\ refusal ef_heap (OEdgeCollapse 1 false) = None.
+Proof. exact ef_examples. Qed.
+Print Assumptions refusal_examples.
+
+(* the statement order "clear the argument's parent pointer, then look for it in the child list" (EAFP) is a
+   different function: on a refused argument it raises the same ValueError but leaves a heap in which the
+   argument is still listed by its parent and has no parent pointer *)
+Theorem remove_child_eafp_order_refuted :
+  exists h p c h', refusal h (ORemoveChild p c false) = Some ValueErr /\
+                   remove_child_plain_eafp p c h = HErr ValueErr h' /\ parent h c = Some 4 /\ parent h' c = None /\
+                   In c (kids h' 4).
+Proof. exact eafp_order_refuted. Qed.
+Print Assumptions remove_child_eafp_order_refuted.
